@@ -26,16 +26,7 @@ def refreshReq (l : Line) : RefreshTokenRequest :=
     ClientAssertion := if str l "auth" == "assertion" then parseToken l else default }
 
 /-- OAuth error code of a sentinel name -/
-def oauthCode (e : String) : String :=
-  match e with
-  | "ErrInvalidRequest" => "invalid_request"
-  | "ErrInvalidGrant" => "invalid_grant"
-  | "ErrInvalidClient" => "invalid_client"
-  | "ErrUnauthorizedClient" => "unauthorized_client"
-  | "ErrUnsupportedGrantType" => "unsupported_grant_type"
-  | "ErrInvalidScope" => "invalid_scope"
-  | "ErrInteractionRequired" => "interaction_required"
-  | _ => "server_error"
+def oauthCode (e : String) : String := _root_.Flow.oauthCode e
 
 def showOut (o : _root_.Flow.Out) : String :=
   match o with
